@@ -44,7 +44,9 @@ CONSTANTS
                  \* lists of 2..MaxList entries, every other option in lists of two
     RandK,       \* Mode "rlists": random option sets drawn per base entry ...
     RandOpts,    \* ... of about this many options each ...
-    RandN        \* ... and random lists drawn per section kind and list length
+    RandN,       \* ... and random lists drawn per section kind and list length
+    Zeros        \* the value class "explicit zero" of the numeric options (section 2a): "none" (not generated),
+                 \* "ok" (only where an explicit 0 can yield an entry) or "all" (also where it must be rejected)
 
 VARIABLES c,     \* the configuration entry under construction (Mode = "cases")
           txt,   \* the text under construction, a sequence of tokens (Mode = "expand")
@@ -178,13 +180,52 @@ ScopeIdx(s) == CASE s = "r" -> 0 [] s = "d1" -> 1 [] s = "d2" -> 2 [] s = "d3" -
 DestScope(i) == "d" \o ToString(i)
 
 \* concurrency is a number of goroutines: keep it small.  Everything else 1000*ix + 10*scope + k:
-\* never a multiple of 10, hence never a default.
-IntVal(d, s, k) == IF d.name = "concurrency" THEN 10 + k ELSE 1000 * d.ix + 10 * ScopeIdx(s) + k
+\* never a multiple of 10, hence never a default.  Value index 0 is the value class "explicit zero".
+IntVal(d, s, k) == IF k = 0 THEN 0 ELSE IF d.name = "concurrency" THEN 10 + k ELSE 1000 * d.ix + 10 * ScopeIdx(s) + k
 StrVal(n, s, k) == n \o "_" \o s \o "_" \o ToString(k)
 
 Has(cc, s, n) == \E o \in cc.opts : o.scope = s /\ o.name = n
 K(cc, s, n) == (CHOOSE o \in cc.opts : o.scope = s /\ o.name = n).k
 BoolOf(k) == IF Deviation = "bool_inverted" THEN k = 0 ELSE k = 1
+
+(***************************************************************************)
+(* 2a. The value class "explicit zero"                                     *)
+(*                                                                         *)
+(* docs/config.md: every option has a default that applies when the option *)
+(* is NOT specified ("default" column); C20: "no option is silently        *)
+(* ignored".  A numeric option that IS specified as 0 is therefore either  *)
+(* applied -- the field of the entry is 0 -- or the entry is refused with  *)
+(* an error; it never means "use the default".  Which of the two is taken  *)
+(* from the constructors as they are [code]:                               *)
+(*   destination.New      flush, reconn, iobuf must be > 0; spoolsyncperiod *)
+(*                        must be > 0 when the destination spools; connbuf, *)
+(*                        spoolbuf >= 0; the other spool tunables: any      *)
+(*   route.NewGrafanaNet  concurrency >= 1; bufSize >= 0; orgId "must be a  *)
+(*                        number > 0" (tcp-admin-interface / errOrgId0)     *)
+(*   aggregator.New       interval must be a positive number of seconds     *)
+(*   rewriter.New         max >= -1 (0 for a literal rewriter is accepted)  *)
+(* Acceptance does not depend on the syntax.                               *)
+(*                                                                         *)
+(* Named wrong reading "zero_means_unset": an option given as 0 is treated *)
+(* as if it had not been given (default applied, nothing refused).         *)
+(***************************************************************************)
+ZeroUnset == Deviation = "zero_means_unset"
+\* integer option n of scope s is given, as 0
+Z(cc, s, n) == Has(cc, s, n) /\ K(cc, s, n) = 0
+\* ... and is in force (the option is given and not read as "not given")
+InForce(cc, s, n) == Has(cc, s, n) /\ ~(ZeroUnset /\ K(cc, s, n) = 0)
+DestZeroRefused == {"flush", "reconn", "iobuf"}          \* destination.New: must be > 0
+GnetZeroRefused == {"concurrency", "orgId"}              \* NewGrafanaNet / errOrgId0
+SpoolOn(cc, s) == Has(cc, s, "spool") /\ BoolOf(K(cc, s, "spool"))
+\* the configuration entry is refused with an error (whatever the syntax)
+Rejected(cc, form) ==
+    /\ ~ZeroUnset
+    /\ \/ /\ cc.kind = "route"
+          /\ \E i \in 1..cc.nd : LET s == "d" \o ToString(i) IN
+                \/ \E n \in DestZeroRefused : Z(cc, s, n)
+                \/ Z(cc, s, "spoolsyncperiod") /\ SpoolOn(cc, s)
+       \/ cc.kind = "gnet" /\ \E n \in GnetZeroRefused : Z(cc, "r", n)
+       \/ cc.kind = "agg" /\ cc.v3 = "i0"
 
 \* ---- field groups -------------------------------------------------------
 \* the six filters; TOML sections of aggregations and routes also accept the old
@@ -215,7 +256,7 @@ IntF(cc, s, pfx, tbl, sq, i) ==
     IF i > Len(sq) THEN <<>>
     ELSE LET d == sq[i]
              src == IF Deviation = "swap_buf" THEN Row(tbl, SrcName(d.name)) ELSE d
-         IN ((pfx \o d.field) :> (d.mul * (IF Has(cc, s, src.name) THEN IntVal(src, s, K(cc, s, src.name)) ELSE d.def)))
+         IN ((pfx \o d.field) :> (d.mul * (IF InForce(cc, s, src.name) THEN IntVal(src, s, K(cc, s, src.name)) ELSE d.def)))
             @@ IntF(cc, s, pfx, tbl, sq, i + 1)
 IntFields(cc, s, pfx, tbl) ==
     IntF(cc, s, pfx, tbl, IF tbl = DestInts THEN DestIntSeq ELSE GnetIntSeq, 1)
@@ -241,19 +282,19 @@ Through(form, tpl) == IF form = "cmd" THEN CatAll(tpl) ELSE Flat(Exp(tpl, 1))
 DestAddr(cc, i) == "127.0.0." \o ToString(i) \o ":1"
 DestInst(cc, i) == IF cc.v1 = "consistentHashing" THEN "inst" \o ToString(i) ELSE ""
 RewOld(cc) == IF cc.v1 = "re" THEN "/old_([a-z]+)/" ELSE "old_lit"
-RewMax(cc) == IF cc.v3 = "all" THEN -1 ELSE 3
+RewMax(cc) == IF cc.v3 = "all" THEN -1 ELSE IF cc.v3 = "z" THEN 0 ELSE 3      \* "z": max = 0, explicit zero
 RewNot(cc) == IF ~Has(cc, "r", "not") THEN ""            \* docs/rewriting.md: not = '' in every example
               ELSE IF K(cc, "r", "not") = 1 THEN "not_lit" ELSE "/not_[0-9]+/"
 BlackVal(cc) == StrVal(cc.v1, "r", 1) \o cc.v3     \* v3: "" or a tag that tells the lines of one blacklist apart
 AggRegex == "^aggre\\.(\\w+)\\.in$"      \* ends in the anchor: a "$" that is not a reference
-AggInterval == 7200
-AggWait == 10800
+AggInterval(cc) == IF cc.v3 = "i0" THEN 0 ELSE 7200         \* v3: "", "i0" (interval = 0), "w0" (wait = 0)
+AggWait(cc) == IF cc.v3 = "w0" THEN 0 ELSE 10800
 
 Params(cc) ==
     CASE cc.kind = "black"    -> [method |-> cc.v1, value |-> BlackVal(cc)]
       [] cc.kind = "rewriter" -> [old |-> RewOld(cc), new |-> CatAll(Tpl(cc.v2)), max |-> ToString(RewMax(cc))]
       [] cc.kind = "agg"      -> [fun |-> cc.v1, regex |-> AggRegex, format |-> CatAll(Tpl(cc.v2)),
-                                  interval |-> ToString(AggInterval), wait |-> ToString(AggWait)]
+                                  interval |-> ToString(AggInterval(cc)), wait |-> ToString(AggWait(cc))]
       [] cc.kind = "route"    -> [type |-> cc.v1, key |-> "<KEY>",
                                   addrs |-> [i \in 1..cc.nd |-> DestAddr(cc, i) \o
                                                (IF DestInst(cc, i) = "" THEN "" ELSE ":" \o DestInst(cc, i))]]
@@ -273,7 +314,7 @@ CacheDefault(form) == IF Deviation = "cache_same_default" THEN TRUE ELSE form # 
 ExpectAgg(cc, form) ==
     ("regex" :> AggRegex)                                       \* regex is mandatory for an aggregation
     @@ MatcherFields(cc, "r", "")
-    @@ [fun |-> cc.v1, format |-> Through(form, Tpl(cc.v2)), interval |-> AggInterval, wait |-> AggWait,
+    @@ [fun |-> cc.v1, format |-> Through(form, Tpl(cc.v2)), interval |-> AggInterval(cc), wait |-> AggWait(cc),
         cache   |-> IF Has(cc, "r", "cache") THEN BoolOf(K(cc, "r", "cache")) ELSE CacheDefault(form),
         dropRaw |-> IF Has(cc, "r", "dropRaw") THEN BoolOf(K(cc, "r", "dropRaw")) ELSE FALSE]   \* docs/config.md example
 
@@ -293,7 +334,9 @@ ExpectRoute(cc) ==
 ExpectGnet(cc) ==
     [type |-> "GrafanaNet", key |-> "<KEY>", ndests |-> 0, addr |-> "<GNETADDR>", apiKey |-> "apiKey_r_1",
      schemasFile |-> "<SCHEMAS>", aggregationFile |-> "<AGGREGATION>",
-     errBackoffFactor |-> IF Has(cc, "r", "errBackoffFactor") THEN FactorVals[K(cc, "r", "errBackoffFactor")] ELSE "1.5"]
+     errBackoffFactor |-> IF ~InForce(cc, "r", "errBackoffFactor") THEN "1.5"
+                          ELSE IF K(cc, "r", "errBackoffFactor") = 0 THEN "0"
+                          ELSE FactorVals[K(cc, "r", "errBackoffFactor")]]
     @@ MatcherFields(cc, "r", "") @@ IntFields(cc, "r", "", GnetInts) @@ BoolFields(cc, "r", "", GnetBools)
 
 Added(cc) == [added_black    |-> IF cc.kind = "black" THEN 1 ELSE 0,
@@ -320,12 +363,15 @@ Base(kind, a, b, d, n) == [kind |-> kind, v1 |-> a, v2 |-> b, v3 |-> d, nd |-> n
 Bases ==
     (IF "black" \in Kinds THEN {Base("black", m, "", "", 0) : m \in MatchNames} ELSE {})
     \cup (IF "rewriter" \in Kinds
-          THEN {Base("rewriter", o, n, m, 0) : o \in {"lit", "re"}, n \in TplKinds, m \in {"all", "n"}}
-               \ {Base("rewriter", "re", n, "n", 0) : n \in TplKinds}      \* regex rewriters need max = -1
+          THEN ({Base("rewriter", o, n, m, 0) : o \in {"lit", "re"}, n \in TplKinds, m \in {"all", "n"}}
+                \ {Base("rewriter", "re", n, "n", 0) : n \in TplKinds})     \* regex rewriters need max = -1
+               \cup (IF Zeros = "none" THEN {} ELSE {Base("rewriter", "lit", n, "z", 0) : n \in {"plain", "brace"}})
           ELSE {})
     \cup (IF "agg" \in Kinds      \* function and template are independent: no need for the product
           THEN {Base("agg", f, "dollar", "", 0) : f \in AggFuns \cup {"percentiles"}}
                \cup {Base("agg", "sum", t, "", 0) : t \in TplKinds}
+               \cup (IF Zeros = "none" THEN {} ELSE {Base("agg", f, "dollar", "w0", 0) : f \in {"sum", "last"}})
+               \cup (IF Zeros = "all" THEN {Base("agg", f, "dollar", "i0", 0) : f \in {"sum", "last"}} ELSE {})
           ELSE {})
     \cup (IF "route" \in Kinds
           THEN {Base("route", t, "", "", n) : t \in RouteTypes, n \in 1..MaxDests}
@@ -336,7 +382,10 @@ Bases ==
 O(s, n, k) == [scope |-> s, name |-> n, k |-> k]
 StrOpts(s, names) == {O(s, n, k) : n \in names, k \in 1..NVals}
 BoolOpts(s, tbl) == {O(s, d.name, k) : d \in tbl, k \in {0, 1}}
+ZeroRefusedNames == DestZeroRefused \cup GnetZeroRefused
 IntOpts(s, tbl) == {O(s, d.name, k) : d \in tbl, k \in 1..NVals}
+                   \cup (IF Zeros = "none" THEN {}
+                         ELSE {O(s, d.name, 0) : d \in {d \in tbl : Zeros = "all" \/ d.name \notin ZeroRefusedNames}})
 
 Universe(cc) ==
     CASE cc.kind = "black"    -> {}
@@ -348,7 +397,8 @@ Universe(cc) ==
                                               \cup IntOpts(DestScope(i), DestInts) \cup BoolOpts(DestScope(i), DestBools)
                                               : i \in 1..cc.nd }
       [] cc.kind = "gnet"     -> StrOpts("r", MatchNames \cup {"substr"}) \cup IntOpts("r", GnetInts)
-                                 \cup BoolOpts("r", GnetBools) \cup {O("r", "errBackoffFactor", k) : k \in 1..2}
+                                 \cup BoolOpts("r", GnetBools)
+                                 \cup {O("r", "errBackoffFactor", k) : k \in (IF Zeros = "none" THEN 1..2 ELSE 0..2)}
 
 Other(n) == IF n = "sub" THEN "substr" ELSE IF n = "substr" THEN "sub" ELSE n
 Avail(cc) == {o \in Universe(cc) : ~Has(cc, o.scope, o.name) /\ ~Has(cc, o.scope, Other(o.name))}
@@ -361,12 +411,20 @@ OptType(cc, o) ==
 OptText(cc, o) ==
     LET ty == OptType(cc, o) IN
     IF ty = "bool" THEN (IF o.k = 1 THEN "true" ELSE "false")
-    ELSE IF ty = "float" THEN FactorVals[o.k]
+    ELSE IF ty = "float" THEN (IF o.k = 0 THEN "0.0" ELSE FactorVals[o.k])
     ELSE IF ty = "int" THEN ToString(IntVal(CHOOSE d \in DestInts \cup GnetInts : d.name = o.name, o.scope, o.k))
     ELSE IF cc.kind = "rewriter" THEN RewNot(cc)
     ELSE StrVal(o.name, o.scope, o.k)
 
 Diff(a, b) == [f \in {f \in DOMAIN a : a[f] # b[f]} |-> b[f]]
+IsZeroOpt(cc, o) == o.k = 0 /\ OptType(cc, o) \in {"int", "float"}
+OptField(o) == (IF o.scope = "r" THEN "" ELSE o.scope \o ".") \o
+               (IF \E d \in DestInts \cup GnetInts : d.name = o.name
+                THEN (CHOOSE d \in DestInts \cup GnetInts : d.name = o.name).field ELSE o.name)
+ZeroFields(cc) == {OptField(o) : o \in {o \in cc.opts : IsZeroOpt(cc, o)}}
+                  \cup (IF cc.kind = "agg" /\ cc.v3 = "i0" THEN {"interval"} ELSE {})
+                  \cup (IF cc.kind = "agg" /\ cc.v3 = "w0" THEN {"wait"} ELSE {})
+                  \cup (IF cc.kind = "rewriter" /\ cc.v3 = "z" THEN {"max"} ELSE {})
 \* cc: what is written (rendered by the driver); ee: the options in force, which decide the entry.
 \* The documentation says ee = cc; they differ only under a wrong reading (section 4).
 CaseOutE(cc, ee) ==
@@ -375,6 +433,8 @@ CaseOutE(cc, ee) ==
      params |-> Params(cc),
      opts |-> {[scope |-> o.scope, name |-> o.name, ty |-> OptType(cc, o), text |-> OptText(cc, o)] : o \in cc.opts},
      forms |-> Forms(cc),
+     reject |-> {f \in Forms(cc) : Rejected(ee, f)},     \* the forms in which the entry must be refused with an error
+     zero |-> ZeroFields(cc),                           \* the fields that are written as an explicit 0
      toml |-> t,
      initdiff |-> Diff(t, Expect(ee, "init")),    \* fields where the init-command entry differs
      cmddiff |-> Diff(t, Expect(ee, "cmd"))]
@@ -410,6 +470,16 @@ CacheAsymmetry ==
 DefaultsWhenUnset ==
     Mode = "cases" /\ c.opts = {} /\ c.kind = "route" =>
         \A i \in 1..c.nd : \A d \in DestInts : Expect(c, "toml")[DestScope(i) \o "." \o d.field] = d.mul * d.def
+
+\* an option written as 0 is applied (its field is 0) or the entry is refused: it is never the default
+ZeroVal(f) == IF f = "errBackoffFactor" THEN "0" ELSE 0
+ExplicitZeroHonoured == Mode = "cases" =>
+    \A o \in c.opts : IsZeroOpt(c, o) =>
+        \A form \in {"toml", "init", "cmd"} :
+            Rejected(c, form) \/ Expect(c, form)[OptField(o)] = ZeroVal(OptField(o))
+\* the syntaxes agree on whether an entry is accepted
+AcceptanceAgrees == Mode = "cases" =>
+    \A form \in {"init", "cmd"} : Rejected(c, form) = Rejected(c, "toml")
 
 (***************************************************************************)
 (* 4. Several entries of one kind in one file / one command sequence       *)
@@ -447,6 +517,8 @@ ListOut(l) ==
     [section |-> Section(l[1]),
      entries |-> [i \in 1..Len(l) |-> CaseOutE(l[i], Eff(l, i))],
      forms   |-> {f \in {"toml", "init", "cmd"} : \A i \in 1..Len(l) : f \in Forms(l[i])},
+     \* a file / sequence with an entry that must be refused is refused (what it leaves behind is not documented)
+     reject  |-> {f \in {"toml", "init", "cmd"} : \E i \in 1..Len(l) : Rejected(Eff(l, i), f)},
      \* what the whole file / sequence adds to the table: one entry per section, of its kind
      added   |-> [added_black    |-> CountKinds(l, {"black"}),
                   added_rewriter |-> CountKinds(l, {"rewriter"}),
@@ -457,6 +529,13 @@ ListOut(l) ==
 \* an entry means the same whether it stands alone or among others
 EntriesIndependent == ListMode =>
     \A i \in 1..Len(lst) : \A form \in {"toml", "cmd"} : ExpectAt(lst, i, form) = Expect(lst[i], form)
+
+\* ... and so is whether it is accepted; an explicit zero is honoured at every position
+ZeroHonouredInList == ListMode =>
+    \A i \in 1..Len(lst) : \A form \in {"toml", "init", "cmd"} :
+        /\ Rejected(Eff(lst, i), form) = Rejected(lst[i], "toml")
+        /\ \A o \in lst[i].opts : IsZeroOpt(lst[i], o) =>
+              Rejected(lst[i], form) \/ ExpectAt(lst, i, form)[OptField(o)] = ZeroVal(OptField(o))
 
 \* every option an entry leaves out is at its documented default, whatever stands before it
 UnsetIsDefault(cc, e, s, p, tblI, tblB) ==
@@ -493,7 +572,7 @@ OptionStaysInItsEntry == ListMode =>
 \* k + NVals * (i - 1) (so that an option landing in the wrong entry shows even when both set it),
 \* blacklist lines get a per-position suffix.
 ASSUME NVals * MaxList < 10      \* IntVal: the value index is the last decimal digit, never 0
-Taggable(cc, o) == cc.kind # "rewriter" /\ OptType(cc, o) \in {"str", "int"}
+Taggable(cc, o) == cc.kind # "rewriter" /\ OptType(cc, o) \in {"str", "int"} /\ o.k # 0     \* an explicit zero stays 0
 Retag(cc, i) ==
     [cc EXCEPT !.opts = {IF Taggable(cc, o) THEN [o EXCEPT !.k = @ + NVals * (i - 1)] ELSE o : o \in cc.opts},
                !.v3 = IF cc.kind = "black" THEN "_e" \o ToString(i) ELSE @]
